@@ -3,11 +3,16 @@
  *     leb <u32|i32|u64|i64> <hex bytes | ->   ->   <bits hex> <count> <ub> <bytes left>
  * `ub` is always printed as 0 here; the UBSan build (-fsanitize=undefined, recoverable) is run with
  * -DMARK_LINES, which writes "LINE <n>\n" to stderr before each call so that the runtime's reports can be
- * attributed to the input line that caused them.
+ * attributed to the input line that caused them, and handles every line in a forked child (UBSan reports a
+ * source location only once per process; a crash only loses that line: the parent prints `crash <status>`).
  * The buffer handed to the decoder is an exact-size malloc block, so that an over-read is visible to ASan. */
 #include <stdio.h>
 #include <stdlib.h>
 #include <string.h>
+#ifdef MARK_LINES
+#include <unistd.h>
+#include <sys/wait.h>
+#endif
 #include "leb128.h"
 
 static int hexv(int c) {
@@ -47,6 +52,19 @@ int main(void) {
         buffer.length = n;
 #ifdef MARK_LINES
         fprintf(stderr, "LINE %lu\n", lineNo);
+        fflush(stdout);
+        {
+            pid_t pid = fork();
+            if (pid != 0) {
+                int status = 0;
+                waitpid(pid, &status, 0);
+                if (!(WIFEXITED(status) && WEXITSTATUS(status) == 0)) {
+                    printf("crash %d\n", status);
+                }
+                free(data);
+                continue;
+            }
+        }
 #endif
         if (strcmp(kind, "u32") == 0) {
             U32 r = 0;
@@ -75,6 +93,10 @@ int main(void) {
         }
         printf(" %lu 0 %lu\n", (unsigned long) count, (unsigned long) buffer.length);
         free(data);
+#ifdef MARK_LINES
+        fflush(stdout);
+        _exit(0);
+#endif
     }
     return 0;
 }
